@@ -244,3 +244,70 @@ def limit_memory(gib=8):
             resource.setrlimit(resource.RLIMIT_AS, (want, hard))
     except (ValueError, OSError):
         pass
+
+
+# ------------------------------------------------------------------------------------------------
+# Time budget per call of the implementation. The properties say the operations RETURN a value: a call that does not
+# return within a budget ~50x..1000x what the unchanged code needs is reported (inside the quantifier: a violation with
+# that input; outside: a representation-level reply), instead of the whole run dying in the watchdog.
+# Unchanged code, measured: every case < 5 ms except the 65537-column ones (< 0.15 s).
+# ------------------------------------------------------------------------------------------------
+import signal as _signal
+import threading as _threading
+import time as _time
+
+
+class DidNotReturn(Exception):
+    def __init__(self, seconds, skipped=False):
+        Exception.__init__(self, "did not return within %s s" % seconds if not skipped else
+                           "not called: earlier out-of-quantifier calls did not return")
+        self.seconds = seconds
+
+
+_state = dict(pid=None, inside=0, outside=0)
+
+
+def _on_alarm(signum, frame):
+    raise DidNotReturn(_state.get("budget"))
+
+
+def budget_for(size, inside):
+    if not inside:
+        return 2.0
+    if _state["inside"] >= 8:                    # many calls already hung: keep going, but do not spend hours
+        return 12.0 if size >= 20000 else 2.0
+    return 120.0 if size >= 20000 else 20.0
+
+
+def budgeted(fn, size, inside=True):
+    """call fn() with a wall-clock budget (SIGALRM; main thread of the current process only, otherwise unbudgeted)"""
+    if _threading.current_thread() is not _threading.main_thread():
+        return fn()
+    import os
+    if _state["pid"] != os.getpid():
+        _signal.signal(_signal.SIGALRM, _on_alarm)
+        _state.update(pid=os.getpid(), inside=0, outside=0)
+    if not inside and _state["outside"] >= 5:
+        raise DidNotReturn(0, skipped=True)
+    b = budget_for(size, inside)
+    _state["budget"] = b
+    _signal.setitimer(_signal.ITIMER_REAL, b)
+    try:
+        return fn()
+    except DidNotReturn:
+        _state["inside" if inside else "outside"] += 1
+        raise
+    finally:
+        _signal.setitimer(_signal.ITIMER_REAL, 0)
+
+
+def over_budget(ctx, quick=420, thorough=5400):
+    """the run is about to exceed what the tier allows (watchdog: 1500 s / 7200 s): stop generating further cases and
+    judge what was done"""
+    limit = thorough if ctx.thorough else quick
+    if _time.time() - ctx.t0 > limit:
+        if not getattr(ctx, "_over_budget_noted", False):
+            ctx._over_budget_noted = True
+            ctx.note("stopped generating further cases after %d s (tier budget); the verdict covers the cases judged so far" % limit)
+        return True
+    return False
